@@ -38,8 +38,8 @@ def errDest {α : Type} : Out α := .err "InvalidDestinationPath"
 /-- `if dir == "//" { "/" } else { dir }` -/
 def fixRootDir (dir : Bytes) : Bytes := if dir == [47, 47] then [47] else dir
 
-/-- `add_data`: the result is what ends up in the builder: `(cpio_path, dir, base_name)` -/
-def addData (dest : Bytes) : Out (Bytes × Bytes × Bytes) :=
+/-- the path splitting of `add_data`: `("." ++ destination text — the pre-cbb69e5 archive name, kept for the lemmas —, dir, base_name)` -/
+def addDataRaw (dest : Bytes) : Out (Bytes × Bytes × Bytes) :=
   if !strStartsWith dest [46, 47] && !strStartsWith dest [47] then errDest
   else
     match parent dest with
@@ -58,6 +58,12 @@ def addData (dest : Bytes) : Out (Bytes × Bytes × Bytes) :=
         match fileName dest with
         | none => errDest
         | some bn => .ok (cpio, fixRootDir dir, toStringLossy bn)
+
+/-- `add_data` as it is since fix cbb69e5: directory and base name as computed by `addDataRaw`; the
+archive entry is named `"." ++ dir ++ base_name` (no longer `"." ++ destination text`), so that it
+always equals what the header records -/
+def addData (dest : Bytes) : Out (Bytes × Bytes × Bytes) :=
+  (addDataRaw dest).map fun r => ([46] ++ r.2.1 ++ r.2.2, r.2.1, r.2.2)
 
 /-- what `get_file_paths()` makes of the stored pair: `Path::new(dir).join(base_name)` -/
 def readBackPath (dir base : Bytes) : Bytes := Path.join dir base
@@ -156,9 +162,9 @@ def discardOut {α : Type} : Out α → Out Unit
 /-- `FileOptions::new(dest).caps(text)?` then `with_file(src, opts)?` (the source file exists) -/
 def fileSetter (valid : Bytes → Bool) (f : FileArg) : Out Unit :=
   match f.caps with
-  | none => discardOut (addData f.dest)
+  | none => discardOut (addDataRaw f.dest)
   | some c => match capsSetter valid c with
-    | .ok _ => discardOut (addData f.dest)
+    | .ok _ => discardOut (addDataRaw f.dest)
     | .err e => .err e
     | .panic s => .panic s
 
